@@ -56,10 +56,29 @@ class _TapeRandom:
             raise TapeExhausted("bad permutation")
         lst[:] = [base[i] for i in d[1]]
 
+    # draws the specification's transcription does not know (a refactoring may use them): the tape entry is used when it
+    # fits (choice ~ sample of one position), otherwise a private seeded generator answers and the deviation is remembered
+    def choice(self, seq):
+        seq = list(seq)
+        if not seq:
+            raise IndexError("Cannot choose from an empty sequence")
+        if self.o.tape and self.o.tape[0][0] == "sample" and len(self.o.tape[0][1]) == 1 and 0 <= self.o.tape[0][1][0] < len(seq):
+            return seq[self.o.tape.pop(0)[1][0]]
+        self.o.deviated = True
+        return self.o.fallback.choice(seq)
+
+    def __getattr__(self, name):
+        if name.startswith("__"):
+            raise AttributeError(name)
+        self.o.deviated = True
+        return getattr(self.o.fallback, name)
+
 
 class Tape:
     def __init__(self, draws):
         self.tape = list(draws)
+        self.deviated = False
+        self.fallback = random.Random(12345)
 
     def Random(self):
         return _TapeRandom(self)
@@ -103,6 +122,28 @@ class _RecRandom:
         self.o.r.shuffle(p)
         self.o.log.append(["shuffle", p])
         lst[:] = [base[i] for i in p]
+
+    def choice(self, seq):
+        self._budget()
+        seq = list(seq)
+        if not seq:
+            raise IndexError("Cannot choose from an empty sequence")
+        i = self.o.r.randrange(len(seq))
+        self.o.log.append(["choice", i])
+        return seq[i]
+
+    def __getattr__(self, name):
+        # any other method of random.Random: answered by the underlying generator, logged by name only
+        if name.startswith("__"):
+            raise AttributeError(name)
+        f = getattr(self.o.r, name)
+
+        def wrapped(*a, **k):
+            self._budget()
+            v = f(*a, **k)
+            self.o.log.append(["other:" + name, 0])
+            return v
+        return wrapped
 
 
 class Recorder:
